@@ -109,6 +109,7 @@ class LogCtx(BaseCtx):
         self.crashes_left = cfg["n_crashes"]
         self.restarts_left = cfg["n_restarts"]
         self.clock_steps_left = cfg.get("clock_steps", 0)
+        self.io_errors_left = cfg.get("io_errors", 0)
         self.sent_sweep = False
         self.reported = 0
 
@@ -129,6 +130,10 @@ class LogCtx(BaseCtx):
             if mode == "power":
                 keep = rng.pick([0, 1, 2, 5, 17, 40, rng.randrange(0, 200), None])
             return ["arm", rng.randrange(1, cfg["crash_window"]), mode, keep, rng.chance(0.3)]
+        if self.io_errors_left > 0 and self.fs.io_armed is None and rng.chance(0.15):
+            self.io_errors_left -= 1
+            return ["ioerr", rng.randrange(1, cfg["crash_window"]), rng.pick([28, 28, 5]),
+                    rng.pick([0, 0, 1, 7, 40, rng.randrange(0, 300)])]
         if self.clock_steps_left > 0 and rng.chance(0.08):
             self.clock_steps_left -= 1
             return ["clockstep", rng.pick([-86400.0, -3600.0, -60.0, -1.5, -0.25, 0.5, 3600.0])]
@@ -192,6 +197,10 @@ class LogCtx(BaseCtx):
         w = self.world
         if w.exited and not w.crashed:
             why = [e for e in w.log if e[2] in ("exit", "exc") and e[3] == "boot"]
+            if why and why[-1][2] == "exc" and "injected I/O error" in str(why[-1][4:]):
+                # the storage refused a write during start-up: not "because of its own log"
+                self.stats["start_refused_by_storage_error(tolerated)"] += 1
+                return
             MSGDIR = msgdir(self.cfg)
             listing = self.fs.listing(MSGDIR) if MSGDIR in self.fs.dirs else []
             tail = ""
@@ -223,6 +232,7 @@ class LogCtx(BaseCtx):
         pos = len(w.log)
         fsyncs = self.fs.fsyncs
         nfiles = len(self.fs.files)
+        self._io_before = len(self.fs.io_errors)
         ran = w.apply(op)
         if not ran:
             return
@@ -254,6 +264,11 @@ class LogCtx(BaseCtx):
                 self.stats["crash_in:%s" % e[4]] += 1
                 if e[4] == "fsync" and e[5] == "power":
                     self.stats["torn_tail_candidates"] += 1
+            elif e[2] == "exc" and e[3] != "boot" and len(self.fs.io_errors) > getattr(self, "_io_before", 0) \
+                    and "injected I/O error" in str(e[4:]):
+                # the storage refused the write: the handler cannot do better than raise (the record is
+                # still buffered or already in the file; the audit checks what becomes of it)
+                self.stats["io_error_escaped_to_reactor"] += 1
             elif e[2] in ("exc", "exit") and e[3] != "boot":
                 # an exception escaping into the reactor while an event was being reported: the event
                 # has no line although no crash intervened
@@ -271,8 +286,14 @@ class LogCtx(BaseCtx):
         nlines, nfrag = audit(self.fs, msgdir(self.cfg))
         # every reported event has its line: without a crash exactly, with crashes at most one event per
         # crash (the one being written) may be missing
+        # (a record whose flush failed stays in the writer's buffer until the next flush, one whose fsync
+        # failed stays un-synced until the next fsync: a crash in between takes it along, so each injected
+        # storage error allows one more missing record - only in a run with a crash)
         ncrash = len(self.fs.crashes)
-        if nlines > self.reported or nlines < self.reported - ncrash:
+        nflush_err = len(self.fs.io_errors) if ncrash else 0
+        for e in self.fs.io_errors:
+            self.stats["io_error:%s/errno%d" % (e[1], e[2])] += 1
+        if nlines > self.reported or nlines < self.reported - ncrash - nflush_err:
             raise Violation("C20", "audit", "lines-vs-reported-events/%s" % ("fewer" if nlines < self.reported else "more"),
                             "the session layer reported %d events to the handler (%d crashes in the run); the log holds %d "
                             "complete records (files: %s)" % (self.reported, ncrash, nlines,
@@ -412,14 +433,21 @@ class LogProfile(BaseProfile):
             "write_keepalive, ROUTE-REFRESH, NOTIFICATION, connection lost/failed) with a rotation threshold forcing 0..k "
             "rotations, up to 4 crashes armed at a file-system call drawn inside the following events (process kill, or power "
             "loss keeping 0..n characters of the un-synced tail, optionally losing a never-synced new file) and clean restarts, "
-            "0-2 steps of the wall clock (-1 day .. +1 h; file names and 't' follow the wall clock, the reactor does not), audit after every restart and at the end; every (runs/sweeps)-th run is a SWEEP: for one history every "
+            "0-2 storage errors (one flush or fsync of the log fails with ENOSPC/EIO, a flush possibly after a partial write; the next attempt succeeds), 0-2 steps of the wall clock (-1 day .. +1 h; file names and 't' follow the wall clock, the reactor does not), audit after every restart and at the end; every (runs/sweeps)-th run is a SWEEP: for one history every "
             "file-system call boundary x kill and every fsync x every byte offset of the un-synced tail; non-trivial = at "
             "least one record acknowledged; distinct = distinct (op, state, records) sequence")
-    probes = ["clock_step:back", "clock_step:forward", "restarts", "crash:kill", "crash:power", "crash_in:write", "crash_in:fsync", "crash_in:flush", "crash_in:open",
+    probes = ["io_error:flush/errno28", "io_error:fsync/errno28", "io_error:fsync/errno5", "clock_step:back", "clock_step:forward", "restarts", "crash:kill", "crash:power", "crash_in:write", "crash_in:fsync", "crash_in:flush", "crash_in:open",
               "torn_tail_candidates", "tolerated_crash_fragments", "rotations", "runs_with_rotation", "records_acked"]
     components = dict(BaseProfile.components)
     components = {"real": BaseProfile.components["real"] + ["yabgp.handler.default_handler.DefaultHandler", "yabgp.agent.check_msg_config"],
                   "stand_in": BaseProfile.components["stand_in"] + ["file system (sim.simfs: user buffer / page cache / durable, numbered crash points)"]}
+
+    def default_config(self):
+        # (the shrinker resets fields to these: the profile is meaningless without the real handler)
+        d = dict(base.DEFAULT_CFG)
+        d["handler"] = "default"
+        d["write_disk"] = True
+        return d
 
     def gen_config(self, rng, idx, tier):
         cfg = dict(base.DEFAULT_CFG)
@@ -443,6 +471,8 @@ class LogProfile(BaseProfile):
         cfg["coarse_clock"] = rng.chance(0.25)
         # wall-clock steps (the reactor's time base is monotonic; file names and 't' use the wall clock)
         cfg["clock_steps"] = rng.pick([0, 0, 0, 1, 2])
+        # storage errors: a flush (write) or an fsync of the message log fails once with ENOSPC / EIO
+        cfg["io_errors"] = rng.pick([0, 0, 0, 1, 2])
         cfg["peer_open"] = rp.encode_open(cfg["remote_as"], rng.pick([0, 90]), "2.2.2.2",
                                           [rp.cap_mp(1, 1), rp.cap_rr(), rp.cap_as4(cfg["remote_as"])]).hex()
         every = max(1, self.runs[tier] // self.sweeps[tier])
